@@ -435,6 +435,9 @@ def run(chk):
     # beyond the property: BMPController sessions (power, LEDs, FPGA registers, ADC, version) against Bmp.tla
     from . import bmp
     bmp.run_beyond(chk)
+    # beyond the property: struct files (the `sv` struct booting packs comes from one), judged against StructFile.tla
+    from . import structfile
+    structfile.run_beyond(chk)
     # report the shortest rejected history of each key first (finish() keeps the first one per key)
     def size(v):
         tr = v.get("replay", {}).get("trace")
